@@ -710,10 +710,10 @@ class TemporariesPoolAllocatorTransformation(Transformation):
             if not all(is_dimension_constant(d) for d in var.shape)
         ]
 
-        # Filter out pointers
+        # Filter out pointers and allocatables
         temporary_arrays = [
             var for var in temporary_arrays
-            if not var.type.pointer or var.type.allocatable
+            if not (var.type.pointer or var.type.allocatable)
         ]
 
         # Create stack argument and local stack var
